@@ -435,11 +435,22 @@ type drEngine struct {
 
 func (e *drEngine) cleanup() {
 	if e.net != nil {
-		for _, n := range e.net.nodes {
-			func() {
-				defer func() { _ = recover() }()
-				n.proc.Close()
-			}()
+		done := make(chan struct{})
+		nodes := e.net.nodes
+		go func() {
+			for _, n := range nodes {
+				func() {
+					defer func() { _ = recover() }()
+					n.proc.Close()
+				}()
+			}
+			close(done)
+		}()
+		select {
+		case <-done:
+		case <-time.After(20 * time.Second):
+			// a Close that does not return is not what this engine looks at; leave the old network behind
+			fmt.Fprintln(os.Stderr, "dkgrun: closing the previous network did not finish within 20 s")
 		}
 		e.net = nil
 	}
@@ -1212,31 +1223,53 @@ func (c *drNet) vgt(kv map[string]string) any {
 	return map[string]any{"op": "vgt", "field": kv["field"], "outcome": out, "old": c.showGroup(old.FinalGroup), "new": c.showGroup(&ng), "now": now}
 }
 
+// a process that stops making progress is wedged: say where (all goroutine stacks), instead of hanging the check
+var stageMu sync.Mutex
+var stageName = "start"
+var stageSince = time.Now()
+
+func setStage(s string) {
+	stageMu.Lock()
+	stageName, stageSince = s, time.Now()
+	stageMu.Unlock()
+}
+
 func dkgrunEngine(_ []string, in *bufio.Scanner, out *bufio.Writer) {
 	e := &drEngine{}
-	defer e.cleanup()
+	go func() {
+		for {
+			time.Sleep(2 * time.Second)
+			stageMu.Lock()
+			name, since := stageName, stageSince
+			stageMu.Unlock()
+			if name != "between ops" && time.Since(since) > 240*time.Second {
+				buf := make([]byte, 1<<22)
+				n := runtime.Stack(buf, true)
+				fmt.Fprintf(os.Stderr, "dkgrun: no progress for 240 s in stage %q\n%s\n", name, buf[:n])
+				b, _ := json.Marshal(map[string]any{"error": "op-timeout", "stage": name})
+				out.Write(b)
+				out.WriteByte('\n')
+				out.Flush()
+				os.Exit(3)
+			}
+		}
+	}()
+	defer func() {
+		// end of the script: nothing to shut down gracefully, the process goes away
+		setStage("final cleanup")
+		if e.base != "" {
+			os.RemoveAll(e.base)
+		}
+		out.Flush()
+		os.Exit(0)
+	}()
 	for in.Scan() {
 		f := fields(in.Text())
 		if len(f) == 0 {
 			continue
 		}
 		var js []byte
-		// an op that does not return is a wedged process: say where, instead of hanging the check
-		opDone := make(chan struct{})
-		go func(line string) {
-			select {
-			case <-opDone:
-			case <-time.After(240 * time.Second):
-				buf := make([]byte, 1<<22)
-				n := runtime.Stack(buf, true)
-				fmt.Fprintf(os.Stderr, "dkgrun: op did not return within 240 s: %s\n%s\n", line, buf[:n])
-				b, _ := json.Marshal(map[string]any{"error": "op-timeout", "line": line})
-				out.Write(b)
-				out.WriteByte('\n')
-				out.Flush()
-				os.Exit(3)
-			}
-		}(in.Text())
+		setStage("op: " + in.Text())
 		r := safely(func() string {
 			var v any
 			switch f[0] {
@@ -1278,7 +1311,7 @@ func dkgrunEngine(_ []string, in *bufio.Scanner, out *bufio.Writer) {
 			js = b
 			return ""
 		})
-		close(opDone)
+		setStage("between ops")
 		if r != "" {
 			js, _ = json.Marshal(map[string]any{"error": r})
 		}
